@@ -53,7 +53,9 @@ class UntypedAtomic(AnyAtomicType):
             case bool():
                 self.value = 'true' if value else 'false'
             case float():
-                self.value = str(value).rstrip('0').rstrip('.')
+                self.value = str(value)
+                if 'e' not in self.value:
+                    self.value = self.value.rstrip('0').rstrip('.')
             case Decimal():
                 self.value = str(value.normalize())
             case UntypedAtomic():
